@@ -94,6 +94,17 @@ theorem subtype_iff_common_value (a b : Ty) (ha : WF a) (hb : b.allElems okElem 
     subtype table a b = true ↔ ∃ v : RtVal, v.witness = true ∧ conforms v a ∧ conforms v b := by
   rw [subtype_exact a b ha hb]; exact compat_iff_common_value a b
 
+/-- The judgement at call boundaries does not depend on which side is the argument and which the
+    parameter (describing a common runtime value is symmetric). -/
+theorem subtype_symm (a b : Ty) (ha : WF a) (hb : WF b) : subtype table a b = subtype table b a := by
+  have h1 := subtype_iff_common_value a b ha hb.2
+  have h2 := subtype_iff_common_value b a hb ha.2
+  cases hab : subtype table a b <;> cases hba : subtype table b a <;> try rfl
+  · obtain ⟨v, hw, h, h'⟩ := h2.1 hba
+    exact absurd (h1.2 ⟨v, hw, h', h⟩) (by simp [hab])
+  · obtain ⟨v, hw, h, h'⟩ := h1.1 hab
+    exact absurd (h2.2 ⟨v, hw, h', h⟩) (by simp [hba])
+
 /-! ## Broadcasting -/
 
 /-- **On known dimensions static broadcasting is numpy's rule.** -/
